@@ -119,6 +119,11 @@ func (lexer *CommonLex) CreateProgram(expr string) (prog []Inst, err error) {
 	errors := fmt.Sprintf("Failed to compile '%s'\n", expr)
 	currentPosInLine :=
 		len(string(expr)) - len(string(lexer.progBldr.lineAtErr))
+	if currentPosInLine < 0 {
+		// A look-ahead character that was not valid UTF-8 is re-encoded
+		// using more bytes than were consumed from the expression.
+		currentPosInLine = 0
+	}
 	parsedLine := string(expr)[:currentPosInLine]
 	unParsedLine := string(expr)[currentPosInLine:]
 
